@@ -143,7 +143,7 @@ def intended_netlist(prog):
         ar = dict(s.get('args', {}))
         c = {'ctor': ctor, 'id': s['name'], 'nodes': [a, b], 'args': {}}
         if ctor in ('resistor',) and s['sym'] == 'Switch':
-            c['args'] = {'R': 1e-12 if ar['closed'] else math.inf}
+            c['args'] = {'R': 0.0 if ar['closed'] else math.inf}          # a closed switch is an ideal connection
         elif ctor == 'resistor':
             c['args'] = {'R': ar['R']}
         elif ctor == 'conductance':
@@ -234,7 +234,7 @@ def default_symbol(rng, c):
     t, a = c['ctor'], c['args']
     rev = rng.random() < 0.5
     if t == 'resistor':
-        if a['R'] == math.inf or a['R'] == 1e-12:
+        if a['R'] == math.inf or a['R'] == 0.0:
             return {'sym': 'Switch', 'name': c['id'], 'args': {'closed': a['R'] != math.inf}}
         return {'sym': 'Resistor', 'name': c['id'], 'args': {'R': a['R']}, 'reverse': rev}
     if t == 'conductance':
